@@ -338,6 +338,29 @@ def a_request_is_confirmed_only_by_its_own_ack(rr, f1, f2, n):
         assert r.status_code == ErrorCode.E_NO_ERROR
 
 
+
+# ------------------------------------------------------------------ "an acknowledgement with no error status": the status is the octet received
+# The send lemmas take a parsed TunnellingAck. The parser owes the status of the wire - an acknowledgement whose
+# status octet it does not know must not come out as E_NO_ERROR.
+
+from xknx.exceptions import CouldNotParseKNXIP as _CouldNotParseKNXIP  # noqa: E402
+from xknx.knxip import TunnellingAck as _TunnellingAck  # noqa: E402
+from pyvc.api import Bytes as _Bytes  # noqa: E402
+
+
+@lemma("C24", params=dict(raw=_Bytes(max_len=8)))
+def a_parsed_acknowledgement_carries_the_status_of_its_octets(raw):
+    """TunnellingAck.from_knx, any octets: refused (C20: an unknown status code raises ValueError, which the frame
+    parser turns into CouldNotParseKNXIP - the frame is dropped and the request times out), or channel, counter and
+    status are exactly octets 1, 2 and 3."""
+    ack = _TunnellingAck()
+    try:
+        ack.from_knx(raw)
+    except (_CouldNotParseKNXIP, ValueError, IndexError):
+        return
+    assert len(raw) == 4 and raw[0] == 4
+    assert ack.communication_channel_id == raw[1] and ack.sequence_counter == raw[2] and ack.status_code.value == raw[3]
+
 ASSUMPTIONS = [
     "asyncio is trusted behind the contract stubs: a cancelled task/future does not continue, asyncio.timeout cancels what it guards, locks are mutually exclusive, queues are FIFO, tasks switch only at awaits; interleavings inside one await are represented by 'the awaited object completes with any admissible value, times out, or the connection closes'",
     "the reconnect task re-establishes the tunnel with counter 0 and a new channel or is cancelled (C25)",
